@@ -152,6 +152,9 @@ class DataTypeBuilder(_parser.StatementStreamProcessor):
 
     def on_field(self, field_type: _serializable.SerializableType, name: str) -> None:
         self._on_attribute()
+        # A type without a serialized representation of its own (a service type) cannot be the type of a field;
+        # this is found out here rather than when the layout is needed first, which may be many statements later.
+        _ = field_type.bit_length_set
         self._queue_attribute(lambda doc: self._structs[-1].add_field(_serializable.Field(field_type, name, doc)))
 
     def on_padding_field(self, padding_field_type: _serializable.VoidType) -> None:
